@@ -91,9 +91,24 @@ Clauses(fam, a) ==
           distinct |-> IsInj(a.perm)]
     [] fam = "k_update" ->      \* a: rows (per mode), R, modes (factor modes to replace, in order), datalen
          [modes_in_range |-> \A k \in 1..Len(a.modes) : a.modes[k] \in 0..(Len(a.rows) - 1),
+          modes_distinct |-> IsInj(a.modes),
           data_length    |-> (\A k \in 1..Len(a.modes) : a.modes[k] \in 0..(Len(a.rows) - 1)) =>
                                \* (surplus data only raise a warning: documented)
                                a.datalen >= SumSeq([k \in 1..Len(a.modes) |-> a.rows[a.modes[k] + 1] * a.R])]
+    [] fam = "k_mode_arg" ->    \* a: N (number of modes), op (which single-mode argument), mode
+         [mode_in_range |-> a.mode \in 0..(a.N - 1)]
+    [] fam = "tt_reconstruct" -> \* a: N, modes (the modes that are sampled)
+         [modes_in_range |-> \A k \in 1..Len(a.modes) : a.modes[k] \in 0..(a.N - 1),
+          modes_distinct |-> IsInj(a.modes)]
+    [] fam = "tucker_ranks" ->  \* a: shape, ranks, auto (TRUE: a zero entry asks for an automatic choice - hosvd)
+         [ranks_length   |-> Len(a.ranks) = N_(a),
+          ranks_in_range |-> Len(a.ranks) = N_(a) =>
+                               \A k \in 1..N_(a) : a.ranks[k] \in (IF a.auto THEN 0 ELSE 1)..a.shape[k]]
+    [] fam = "als_optdims" ->   \* a: N, optdims (modes that are optimised)
+         [optdims_in_range |-> \A k \in 1..Len(a.optdims) : a.optdims[k] \in 0..(a.N - 1),
+          optdims_distinct |-> IsInj(a.optdims)]
+    [] fam = "ctor_sptenmat_neg" -> \* a: minrow, mincol (smallest row / column subscript of any entry)
+         [nonneg |-> a.minrow >= 0 /\ a.mincol >= 0]
     [] fam = "sp_reshape_modes" -> \* a: shape, old_modes, target (new sizes replacing the listed modes)
          [modes_in_range |-> \A k \in 1..Len(a.old_modes) : a.old_modes[k] \in 0..(N_(a) - 1),
           modes_distinct |-> IsInj(a.old_modes),
